@@ -18,6 +18,9 @@ logging.getLogger("asyncio").disabled = True
 
 KINDS = ("mem", "redis", "amqp")
 SPIED = ("enqueue", "ack", "nack", "reject", "requeue")
+import contextvars
+
+_SPY_DEPTH = contextvars.ContextVar("mc_spy_depth", default=0)
 
 
 def params_view(p) -> dict:
@@ -132,15 +135,20 @@ class World:
 
         async def spy(key, *a, **kw):
             params = a[1] if len(a) > 1 else kw.get("params")
+            depth = _SPY_DEPTH.get()
             rec = [loop._ns, "call", name, key.id_, client,
-                   params_view(params) if name in ("enqueue", "requeue") else None, None]
+                   params_view(params) if name in ("enqueue", "requeue") else None, None, depth,
+                   a[0] if a else kw.get("payload")]
             log.append(rec)
+            _SPY_DEPTH.set(depth + 1)
             try:
                 r = await inner(key, *a, **kw)
             except BaseException as e:  # noqa: BLE001
                 rec[6] = ("exc", type(e).__name__, loop._ns)
                 log.append([loop._ns, "ret", name, key.id_, client, type(e).__name__])
                 raise
+            finally:
+                _SPY_DEPTH.set(depth)
             rec[6] = ("ok", None, loop._ns)
             log.append([loop._ns, "ret", name, key.id_, client, None])
             return r
